@@ -186,6 +186,13 @@ func VerifFrameworkOrder() {
 		}
 	}
 	if prop == "C03" {
+		if st.panics && st.early {
+			// a panic in the applicability test precedes the window test; the framework's
+			// report of it (fatal, certificate lints) is the subject of C02/C04, not of C03
+			zz.Cover("applicability test panics")
+			zz.Assert(!executed, "the rule body is not run after a panicking applicability test")
+			return
+		}
 		if !inWindow {
 			zz.Cover("outside the window")
 			zz.Assert(res.Status == lint.NA || res.Status == lint.NE, "an object dated outside the window only ever gets NA or NE")
